@@ -374,6 +374,15 @@ class Tr:
                 other = b if self.is_null(a) else a if self.is_null(b) else None
                 if other is None or (self.is_null(a) and self.is_null(b)):
                     raise Broken("pointer comparison other than with nullptr")
+                if getattr(self, "null_style", "nonnull") == "null":
+                    x = other
+                    while x.get("kind") in ("ImplicitCastExpr", "ParenExpr") and x.get("inner"):
+                        x = x["inner"][-1]
+                    nm0 = x.get("referencedDecl", {}).get("name") if x.get("kind") == "DeclRefExpr" else x.get("name")
+                    if not nm0:
+                        raise Broken("pointer truth value of a compound expression")
+                    v = self.fv(nm0 + "_null", "Bool")
+                    return v if op == "==" else f"(!{v})"
                 e = self.ptr_nonnull(other)
                 return e if op == "!=" else f"(!{e})"
             ea, eb = self.expr(a), self.expr(b)
@@ -428,6 +437,21 @@ class Tr:
                 if ct[0] == "ptr":
                     raise Broken(f"pointer-valued call {nm}")
                 return self.fv((pre + "_" if pre else "") + nm2, lean_ty(ct))
+            # `(obj->*F)()` with F a pointer to member bound at instantiation: same naming as obj->get_x()
+            cal = callee
+            while cal.get("kind") == "ParenExpr" and cal.get("inner"):
+                cal = cal["inner"][-1]
+            if cal.get("kind") == "BinaryOperator" and cal.get("opcode") in ("->*", ".*") and not args:
+                meth = ""
+                for x in walk(cal["inner"][1]):
+                    if x.get("kind") == "DeclRefExpr" and x.get("referencedDecl", {}).get("kind") == "CXXMethodDecl":
+                        meth = x["referencedDecl"].get("name", ""); break
+                if meth:
+                    pre = self.obj_name(cal["inner"][0])
+                    ct = ctype(n)
+                    if ct[0] == "ptr":
+                        raise Broken(f"pointer-valued call {meth}")
+                    return self.fv((pre + "_" if pre else "") + re.sub(r"^get_", "", meth), lean_ty(ct))
             raise Broken("member call with arguments")
         if k == "CXXOperatorCallExpr" and len(inner) == 3 and \
                 "endianness_convertor" in (inner[1].get("type", {}).get("qualType", "")):
@@ -435,6 +459,15 @@ class Tr:
             ct = ctype(n)
             f = self.fv(f"convertor{ct[1]}", f"BitVec {ct[1]} → BitVec {ct[1]}")
             return f"({f} {self.cast(self.expr(inner[2]), ctype(inner[2]), ct)})"
+        if k == "CXXOperatorCallExpr" and len(inner) == 3 and \
+                any(x.get("referencedDecl", {}).get("name") == "operator[]" for x in walk(inner[0])):
+            # element of a container member: the (checked) read is the model's business; here it is a
+            # parameter `<container>_at_<index variable>`
+            ct = ctype(n)
+            if ct[0] == "ptr":
+                raise Broken("pointer-valued container element")
+            cont = self.obj_name(inner[1]); idx = self.obj_name(inner[2])
+            return self.fv(cont + "_at" + ("_" + idx if idx and idx != "obj" else ""), lean_ty(ct))
         if k == "CallExpr":
             # std::numeric_limits<T>::max()
             def callee_name(c):
@@ -493,6 +526,12 @@ class Tr:
             x = x["inner"][-1]
         return x.get("kind") in ("CXXNullPtrLiteralExpr", "GNUNullExpr")
 
+    def is_nullptr(self, n):
+        x = n
+        while x.get("kind") in ("ImplicitCastExpr", "ParenExpr", "CStyleCastExpr") and x.get("inner"):
+            x = x["inner"][-1]
+        return x.get("kind") in ("CXXNullPtrLiteralExpr", "GNUNullExpr")
+
     def ptr_nonnull(self, x):
         """a named pointer (variable / member) used as a truth value: Bool parameter `<name>_nonnull`"""
         while x.get("kind") in ("ImplicitCastExpr", "ParenExpr") and x.get("inner"):
@@ -502,6 +541,46 @@ class Tr:
         if x.get("kind") == "MemberExpr":
             return self.fv(x.get("name", "p") + "_nonnull", "Bool")
         raise Broken("pointer truth value of a compound expression")
+    def ptr_off(self, n):
+        """pointer-valued expression -> (name of the base pointer, Lean term of the byte offset from it
+        as BitVec 64, or None for offset 0).  Only `char*`-style arithmetic (element size 1)."""
+        k = n["kind"]
+        inner = [c for c in n.get("inner", []) if not c.get("kind", "").endswith("Comment")]
+        if k in ("ParenExpr", "ExprWithCleanups", "MaterializeTemporaryExpr") or \
+           (k in ("ImplicitCastExpr", "CStyleCastExpr", "CXXStaticCastExpr", "CXXReinterpretCastExpr",
+                  "CXXConstCastExpr") and n.get("castKind", "") in ("LValueToRValue", "NoOp", "BitCast")):
+            return self.ptr_off(inner[-1])
+        if k == "DeclRefExpr":
+            return n.get("referencedDecl", {}).get("name", "ptr"), None
+        if k == "MemberExpr":
+            return n.get("name", "ptr"), None
+        if k == "CXXMemberCallExpr" and inner and inner[0].get("kind") == "MemberExpr" and len(inner) == 1:
+            pre = ""
+            base = inner[0].get("inner", [])
+            if base and base[0]["kind"] != "CXXThisExpr":
+                pre = self.obj_name(base[0])
+            return (pre + "_" if pre else "") + re.sub(r"^get_", "", inner[0].get("name", "ptr")), None
+        if k == "BinaryOperator" and n.get("opcode") in ("+", "-"):
+            a, b = inner
+            ta, tb = self.try_ctype(a), self.try_ctype(b)
+            if n["opcode"] == "+" and tb and tb[0] == "ptr" and ta and ta[0] == "int":
+                a, b, ta, tb = b, a, tb, ta
+            if ta and ta[0] == "ptr" and tb and tb[0] == "int":
+                q = (a.get("type", {}).get("desugaredQualType") or a.get("type", {}).get("qualType") or "")
+                if not re.fullmatch(r"(const )?(unsigned |signed )?char \*( const)?", q.strip()):
+                    raise Broken(f"pointer arithmetic on '{q}' (element size not 1)")
+                base, off = self.ptr_off(a)
+                d = self.cast(self.expr(b), tb, ("int", 64, tb[2]))
+                if n["opcode"] == "-":
+                    return base, (f"(-{d})" if off is None else f"({off} - {d})")
+                return base, (d if off is None else f"({off} + {d})")
+        raise Broken(f"pointer expression kind {k}")
+
+    def try_ctype(self, n):
+        try:
+            return ctype(n)
+        except Broken:
+            return None
 
     def shift_amount(self, b, eb):
         x = b
@@ -852,6 +931,15 @@ def select0(fn, sel):
                     return n                      # translate_site scales the index by the element size
                 i += 1
         raise Broken(f"{kind} #{nth} not found")
+    if kind == "deref":
+        # operand of the N-th `*p` (source order): translated to its byte offset from the base pointer
+        nth = int(arg or 0); i = 0
+        for n in walk(body):
+            if n.get("kind") == "UnaryOperator" and n.get("opcode") == "*":
+                if i == nth:
+                    return strip_comments(n)[0]
+                i += 1
+        raise Broken(f"dereference #{nth} not found")
     if kind == "callarg":
         callee, _, rest = arg.partition("#"); nth, _, argi = rest.partition("."); nth = int(nth or 0); argi = int(argi or 0); i = 0
         for n in walk(body):
@@ -874,6 +962,7 @@ def translate_site(site, consts, sizes, key):
     docs = clang_docs(site["filter"], key)
     fn = find_function(docs, site)
     tr = Tr(consts, sizes)
+    tr.null_style = site.get("null_style", "nonnull")
     params = []
     for p in fn.get("inner", []):
         if p.get("kind") == "ParmVarDecl":
@@ -912,6 +1001,11 @@ def translate_site(site, consts, sizes, key):
                 raise Broken("++/-- on a non-integer")
             body = f"({tr.expr(tgt)} {'+' if node['opcode'] == '++' else '-'} 1#{ct[1]})"
             rty = lean_ty(ct)
+        elif (tr.try_ctype(node) or ("", 0, 0))[0] == "ptr":
+            base, off = tr.ptr_off(node)
+            body = off if off is not None else "0#64"
+            rty = "BitVec 64"
+            site = dict(site, select=site.get("select", "") + f" = byte offset from `{base}`")
         else:
             body = tr.expr(node)
             rty = lean_ty(ctype(node))
